@@ -7,14 +7,17 @@ exactly), the offset tables as values (`tableEntries`, `tfhdBase`, `offsetsOfTre
 
 Model side, following the code:
   mutagen/mp4/_atom.py     Atom.__init__, Atoms.__init__      -> `parseAtom`, `parseKids`, `parseTop`
+                                                                  (container atoms below level 64 are refused)
                            Atom.findall / Atoms.__getitem__   -> `findallList`, `child?`, `path?`
   mutagen/mp4/__init__.py  _find_padding                      -> `findPadding` (Python's `children[-1]` included)
                            __save_existing / __save_new       -> `regionOf` (which bytes are replaced, whose sizes change)
                            __update_parents                   -> `patchSize`, `updateParents`
                            __update_offset_table              -> `updateOffsetTable8`
                            __update_tfhd                      -> `updateTfhd8`
-                           __update_offsets                   -> `updateOffsets` (only `atoms[b"moov"]`, only `atoms[b"moof"]`
-                                                                  = the FIRST top-level moov / moof)
+                           __update_offsets                   -> `offsetSteps`: `visitedIn` = the stco/co64 atoms below the
+                                                                  FIRST top-level moov and the tfhd atoms below every
+                                                                  top-level moof (`visited`), without those that start
+                                                                  inside the replaced region
   and `saveRegion` = resize_bytes + write + __update_parents + __update_offsets on the bytes.
 
 What is rendered INTO the replaced region (the ilst atom, the padding `free` atom, the new
@@ -24,6 +27,7 @@ The container set and the `meta` skip are literal copies of `_CONTAINERS` / `_SK
 harness compares them with the imported module on every run (harness/props/c10.py).
 -/
 import MutagenModel.Model.IntCodec
+import MutagenModel.Model.Padding
 set_option linter.unusedVariables false
 namespace Mutagen.Mp4C
 open Mutagen
@@ -259,6 +263,7 @@ def PAtom.children : PAtom → List PAtom | .mk _ _ _ _ c => c
 mutual
 /-- `Atom(fileobj, level)` with the file position `pos`; returns the atom and the position the
 file object is left at (for a container: where its last child ended, NOT offset+length).
+A container atom at a level above 64 is refused (top-level atoms have level 0).
 AtomError is reported by `save`/`load` as `mutagen.mp4.error`. -/
 def parseAtom : Nat → Bytes → Nat → Nat → Except PyErr (PAtom × Nat)
   | 0, _, _, _ => .error .diverge
@@ -282,9 +287,11 @@ def parseAtom : Nat → Bytes → Nat → Nat → Except PyErr (PAtom × Nat)
       | .error e => .error e
       | .ok (length, dataoffset) =>
         if isContainer name then
-          match parseKids fuel f (dataoffset + skipSize name) (pos + length) (level + 1) with
-          | .error e => .error e
-          | .ok (kids, p) => .ok (PAtom.mk name pos length dataoffset kids, p)
+          if level > 64 then .error .mutagen       -- AtomError("atoms nested too deeply")
+          else
+            match parseKids fuel f (dataoffset + skipSize name) (pos + length) (level + 1) with
+            | .error e => .error e
+            | .ok (kids, p) => .ok (PAtom.mk name pos length dataoffset kids, p)
         else .ok (PAtom.mk name pos length dataoffset [], pos + length)
 /-- `while fileobj.tell() < self.offset + self.length: self.children.append(Atom(fileobj, level + 1))` -/
 def parseKids : Nat → Bytes → Nat → Nat → Nat → Except PyErr (List PAtom × Nat)
@@ -314,7 +321,8 @@ def parseTop : Nat → Bytes → Nat → Except PyErr (List PAtom)
     else .ok []
 
 /-- every successfully read atom starts at least 8 bytes after the previous one and needs 8
-readable bytes, so `length + 4` steps are never used up (`diverge` is not reached; not proved) -/
+readable bytes, so `length + 4` steps are never used up (`diverge` is not reached:
+`parse_clean` in Proofs/Container/Mp4Total.lean, Props/C04_Mp4 `mp4_parse_finishes`) -/
 def parse (f : Bytes) : Except PyErr (List PAtom) := parseTop (f.length + 4) f 0
 
 /-- first child with that name (`Atom.__getitem__` / `Atoms.__getitem__`, one step) -/
@@ -368,7 +376,7 @@ structure Region where
 
 /-- `__save`: with `moov.udta.meta.ilst` the old `ilst` (+ the padding atom found) is replaced and
 `moov, udta, meta` change size (`__save_existing`); otherwise the new atoms are inserted at the
-start of `moov.udta` (or of `moov`) (`__save_new`).  none = KeyError (no `moov`). -/
+start of `moov.udta` (or of `moov`) (`__save_new`).  none = no top-level `moov`: MP4MetadataError. -/
 def regionOf (atoms : List PAtom) : Option Region :=
   match path? atoms [nMoov, nUdta, nMeta, nIlst] with
   | some [moov, udta, metaA, ilst] =>
@@ -413,14 +421,11 @@ def patchSize (g : Bytes) (off : Nat) (delta : Int) : Except PyErr Bytes :=
     | .error e => .error e
     | .ok b => .ok (writeAt g off b)
 
-/-- Python `fileobj.read(n)`: a negative `n` reads to the end of the file -/
-def pyRead (g : Bytes) (pos : Nat) (n : Int) : Bytes :=
-  if n < 0 then g.drop pos else readAt g pos n.toNat
-
 /-- `__update_offset_table` on an atom at (already shifted) `off` of length `len`; `w` = 4 (stco) or
-8 (co64).  The header is assumed 8 bytes long (the count is read at `off + 12`). -/
+8 (co64).  The header is assumed 8 bytes long (the count is read at `off + 12`).
+`fileobj.read(max(0, atom.datalength - 4))`: the natural-number subtraction `len - 12`. -/
 def updateOffsetTable8 (g : Bytes) (w off len : Nat) (delta : Int) (offset : Nat) : Except PyErr Bytes :=
-  let data := pyRead g (off + 12) ((len : Int) - 12)
+  let data := readAt g (off + 12) (len - 12)
   if (data.take 4).length < 4 then .error .mutagen       -- cdata.uint_be inside the try: MP4MetadataError
   else
     let cnt := ofBE (data.take 4)
@@ -433,7 +438,7 @@ def updateOffsetTable8 (g : Bytes) (w off len : Nat) (delta : Int) (offset : Nat
 
 /-- `__update_tfhd` (flags at `off + 9`, base_data_offset at `off + 16`: 8-byte header assumed) -/
 def updateTfhd8 (g : Bytes) (off len : Nat) (delta : Int) (offset : Nat) : Except PyErr Bytes :=
-  let data := pyRead g (off + 9) ((len : Int) - 9)
+  let data := readAt g (off + 9) (len - 9)
   -- cdata.uint_be(b"\x00" + data[:3]) needs 3 bytes
   if (data.take 3).length < 3 then .error .mutagen
   else if ofBE (data.take 3) % 2 = 1 then
@@ -460,7 +465,7 @@ def runSteps : List (Bytes → Except PyErr Bytes) → Bytes → Option PyErr ×
 def parentSteps (parents : List PAtom) (delta : Int) : List (Bytes → Except PyErr Bytes) :=
   if delta = 0 then [] else parents.map fun a => fun g => patchSize g a.offset delta
 
-/-- the atoms `__update_offsets` visits, in order, with the entry width (0 marks a `tfhd`): `stco`
+/-- the table atoms `__update_offsets` finds, in order, with the entry width (0 marks a `tfhd`): `stco`
 then `co64` below the first `moov`, then `tfhd` below EVERY top-level `moof` in file order -/
 def visited (atoms : List PAtom) : List (Nat × PAtom) :=
   match child? atoms nMoov with
@@ -501,16 +506,18 @@ def saveAt8 (f : Bytes) (atoms : List PAtom) (parents : List PAtom) (offset old 
     runSteps (parentSteps parents delta ++ offsetSteps8 atoms delta offset) (splice f offset old new)
 
 /-! The code as it is now: the payload of a table atom starts at `_dataoffset`, i.e. `hl` = 8 or
-(64-bit size header) 16 bytes behind the start of the atom.  The definitions with suffix `8` above
-are the same functions for `hl = 8` (`saveAt_eq_saveAt8` in Proofs/Container/Mp4.lean); the
-byte-level theorems are proved for them. -/
+(64-bit size header) 16 bytes behind the start of the atom, and table atoms that start inside the replaced
+region are not visited.  The definitions with suffix `8` above are the same functions for `hl = 8` and no
+table atom inside the region — both part of `SaveSafe` (`saveAt_eq_saveAt8` in Proofs/Container/Mp4.lean);
+the byte-level theorems are proved for them. -/
 
 /-- header length of a parsed atom: `_dataoffset - offset` -/
 def hdrOf (a : PAtom) : Nat := a.dataoffset - a.offset
 
-/-- `__update_offset_table`: count at `_dataoffset + 4`, entries written at `_dataoffset + 8` -/
+/-- `__update_offset_table`: count at `_dataoffset + 4`, entries written at `_dataoffset + 8`;
+`data = fileobj.read(max(0, atom.datalength - 4))`: the natural-number subtraction `len - hl - 4` -/
 def updateOffsetTable (g : Bytes) (hl w off len : Nat) (delta : Int) (offset : Nat) : Except PyErr Bytes :=
-  let data := pyRead g (off + hl + 4) ((len : Int) - hl - 4)
+  let data := readAt g (off + hl + 4) (len - hl - 4)
   if (data.take 4).length < 4 then .error .mutagen
   else
     let cnt := ofBE (data.take 4)
@@ -523,7 +530,7 @@ def updateOffsetTable (g : Bytes) (hl w off len : Nat) (delta : Int) (offset : N
 
 /-- `__update_tfhd`: flags at `_dataoffset + 1`, base_data_offset at `_dataoffset + 8` -/
 def updateTfhd (g : Bytes) (hl off len : Nat) (delta : Int) (offset : Nat) : Except PyErr Bytes :=
-  let data := pyRead g (off + hl + 1) ((len : Int) - hl - 1)
+  let data := readAt g (off + hl + 1) (len - hl - 1)
   if (data.take 3).length < 3 then .error .mutagen
   else if ofBE (data.take 3) % 2 = 1 then
     let raw := (data.drop 7).take 8
@@ -537,20 +544,29 @@ def tableStep (delta : Int) (offset : Nat) (t : Nat × PAtom) : Bytes → Except
   if t.1 = 0 then updateTfhd g (hdrOf t.2) (shifted t.2 delta offset) t.2.length delta offset
   else updateOffsetTable g (hdrOf t.2) t.1 (shifted t.2 delta offset) t.2.length delta offset
 
-def offsetSteps (atoms : List PAtom) (delta : Int) (offset : Nat) : List (Bytes → Except PyErr Bytes) :=
+/-- the atoms `__update_offsets(fileobj, atoms, delta, offset, length)` visits: what was found, without the
+atoms that start inside the replaced region `[offset, offset + length)` — they no longer exist
+(`if not offset <= a.offset < offset + length`) -/
+def visitedIn (atoms : List PAtom) (offset length : Nat) : List (Nat × PAtom) :=
+  (visited atoms).filter fun t => ¬ (offset ≤ t.2.offset ∧ t.2.offset < offset + length)
+
+/-- the steps of `__update_offsets(fileobj, atoms, delta, offset, length)` (`atoms[b"moov"]` missing: KeyError —
+not reachable from `save`, which has found `moov` before) -/
+def offsetSteps (atoms : List PAtom) (delta : Int) (offset length : Nat) : List (Bytes → Except PyErr Bytes) :=
   if delta = 0 then []
   else
     match child? atoms nMoov with
     | none => [fun _ => .error .key]
-    | some _ => (visited atoms).map (tableStep delta offset)
+    | some _ => (visitedIn atoms offset length).map (tableStep delta offset)
 
-/-- `__save_existing` / `__save_new` once the new bytes are rendered (see `saveAt8`) -/
+/-- `__save_existing` / `__save_new` once the new bytes are rendered (see `saveAt8`); `__save_existing` passes
+the length of the replaced region to `__update_offsets`, `__save_new` (where `old = 0`) nothing -/
 def saveAt (f : Bytes) (atoms : List PAtom) (parents : List PAtom) (offset old : Nat) (new : Bytes) :
     Option PyErr × Bytes :=
   if f.length < offset + old then (some .value, f)
   else
     let delta : Int := (new.length : Int) - old
-    runSteps (parentSteps parents delta ++ offsetSteps atoms delta offset) (splice f offset old new)
+    runSteps (parentSteps parents delta ++ offsetSteps atoms delta offset old) (splice f offset old new)
 
 /-- the save with the region mutagen chooses; `newOf` renders the replacement from the region
 (length of the old region is what padding is computed from) -/
@@ -559,7 +575,7 @@ def saveRegion (f : Bytes) (newOf : Region → Bytes) : Option PyErr × Bytes :=
   | .error e => (some e, f)
   | .ok atoms =>
     match regionOf atoms with
-    | none => (some .key, f)
+    | none => (some .mutagen, f)
     | some R => saveAt f atoms R.parents R.offset R.length (newOf R)
 
 
@@ -700,5 +716,156 @@ def updateParents (g : Bytes) (offs : List Nat) (delta : Int) : Except PyErr Byt
     match patchSize g o delta with
     | .error e => .error e
     | .ok g' => updateParents g' r delta
+
+/-! ### the whole of MP4.load / MP4Tags.save / MP4Tags.delete on every byte string (Props/C04_Mp4)
+
+`saveAt` above takes the shifted position of a table atom as a natural number (`shifted`: `toNat`).  The
+definitions below keep `atom.offset += delta` an integer and let a negative `fileobj.seek` raise: ValueError on
+an io.BytesIO, EINVAL (IOError → `mutagen.mp4.error` through `convert_error`) on a real file — `mem` says which.
+Before /repo ded7b59 a `stco`/`co64` atom among the descendants of `ilst` could be shifted below 0; now the atoms
+inside the replaced region are not visited and `saveAtZ` IS `saveAt` (`saveAtZ_eq_saveAt`,
+Proofs/Container/Mp4Total.lean).  Further
+  * `__save_existing` refuses a region that reaches beyond the file (`content_size < 0`) before anything else happens;
+  * the padding atom and the `meta`/`udta`/`hdlr` wrappers are rendered here (`Atom.render`); what stays a
+    parameter is `ilstData` = `Atom.render(b"ilst", …)` of the rendered tag values (C01/C09). -/
+
+/-- `Atom.render(name, data)` -/
+def renderAtom (name data : Bytes) : Bytes :=
+  if data.length + 8 ≤ 0xFFFFFFFF then toBE 4 (data.length + 8) ++ name ++ data
+  else toBE 4 1 ++ name ++ toBE 8 (data.length + 16) ++ data
+
+def nHdlr : Bytes := [0x68, 0x64, 0x6c, 0x72]
+
+/-- `Atom.render(b"free", b"\x00" * min(0xFFFFFFFF, new_padding))` (a negative count gives `b""`) -/
+def freeAtom (newPadding : Int) : Bytes := renderAtom nFree (zeros (min 0xFFFFFFFF newPadding).toNat)
+
+/-- `Atom.render(b"hdlr", b"\x00" * 8 + b"mdirappl" + b"\x00" * 9)` -/
+def hdlrAtom : Bytes := renderAtom nHdlr (zeros 8 ++ [0x6d, 0x64, 0x69, 0x72, 0x61, 0x70, 0x70, 0x6c] ++ zeros 9)
+
+/-- the exception a negative `fileobj.seek` ends in: ValueError, or (a real file) EINVAL → IOError → `error` -/
+def negSeek (mem : Bool) : PyErr := if mem then .value else .mutagen
+
+/-- `atom.offset` after `if atom.offset > offset: atom.offset += delta` — an integer -/
+def shiftedZ (a : PAtom) (delta : Int) (offset : Nat) : Int :=
+  if a.offset > offset then (a.offset : Int) + delta else a.offset
+
+/-- `__update_offset_table` after `fileobj.seek(p)` (`p = atom._dataoffset + 4`): `data = fileobj.read(n)`
+(`n = max(0, atom.datalength - 4)`), the count, the entries, `fileobj.seek(p + 4)`, write -/
+def offsetTableAt (g : Bytes) (w p n : Nat) (delta : Int) (offset : Nat) : Except PyErr Bytes :=
+  let data := readAt g p n
+  if (data.take 4).length < 4 then .error .mutagen
+  else
+    let cnt := ofBE (data.take 4)
+    let body := data.drop 4
+    if body.length ≠ cnt * w then .error .mutagen
+    else
+      let es := (entriesOf w cnt body).map (patchEntry offset delta)
+      if es.any (fun v => v < 0 ∨ v ≥ (256 ^ w : Nat)) then .error .mutagen
+      else .ok (writeAt g (p + 4) (encodeEntries w (es.map Int.toNat)))
+
+/-- `__update_tfhd` after `fileobj.seek(p)` (`p = atom._dataoffset + 1`, `n = max(0, atom.datalength - 1)`) -/
+def tfhdAt (g : Bytes) (p n : Nat) (delta : Int) (offset : Nat) : Except PyErr Bytes :=
+  let data := readAt g p n
+  if (data.take 3).length < 3 then .error .mutagen
+  else if ofBE (data.take 3) % 2 = 1 then
+    let raw := (data.drop 7).take 8
+    if raw.length < 8 then .error .mutagen
+    else match packBE 8 (patchEntry offset delta (ofBE raw)) .mutagen with
+      | .error e => .error e
+      | .ok b => .ok (writeAt g (p + 7) b)
+  else .ok g
+
+/-- the position of the first seek of `__update_offset_table` (`_dataoffset + 4`) / `__update_tfhd`
+(`_dataoffset + 1`) after the shift -/
+def seekPos (delta : Int) (offset : Nat) (t : Nat × PAtom) : Int :=
+  shiftedZ t.2 delta offset + hdrOf t.2 + (if t.1 = 0 then 1 else 4 : Nat)
+
+/-- `__update_offset_table(fileobj, fmt, atom, delta, offset)` / `__update_tfhd(...)` as a step -/
+def tableStepZ (mem : Bool) (delta : Int) (offset : Nat) (t : Nat × PAtom) : Bytes → Except PyErr Bytes := fun g =>
+  let p := seekPos delta offset t
+  if p < 0 then .error (negSeek mem)
+  else if t.1 = 0 then tfhdAt g p.toNat (t.2.length - hdrOf t.2 - 1) delta offset
+  else offsetTableAt g t.1 p.toNat (t.2.length - hdrOf t.2 - 4) delta offset
+
+def offsetStepsZ (mem : Bool) (atoms : List PAtom) (delta : Int) (offset length : Nat) :
+    List (Bytes → Except PyErr Bytes) :=
+  if delta = 0 then []
+  else
+    match child? atoms nMoov with
+    | none => [fun _ => .error .key]
+    | some _ => (visitedIn atoms offset length).map (tableStepZ mem delta offset)
+
+/-- `saveAt` with integer positions and the file object's kind -/
+def saveAtZ (mem : Bool) (f : Bytes) (atoms : List PAtom) (parents : List PAtom) (offset old : Nat) (new : Bytes) :
+    Option PyErr × Bytes :=
+  if f.length < offset + old then (some .value, f)
+  else
+    let delta : Int := (new.length : Int) - old
+    runSteps (parentSteps parents delta ++ offsetStepsZ mem atoms delta offset old) (splice f offset old new)
+
+def ilstPath : List Bytes := [nMoov, nUdta, nMeta, nIlst]
+
+/-- `MP4Tags.save(filething, padding)` from `Atoms(fileobj)` on, `ilstData = Atom.render(b"ilst", b"".join(values))`:
+`__save` → `__save_existing` (the path `moov.udta.meta.ilst` exists) or `__save_new`.
+Result: the exception that ended the save (if any) and the bytes in the file. -/
+def saveTags (mem : Bool) (f ilstData : Bytes) (pad : PadChoice) : Option PyErr × Bytes :=
+  match parse f with
+  | .error e => (some e, f)                                   -- AtomError → error
+  | .ok atoms =>
+    match regionOf atoms with
+    | none => (some .mutagen, f)                              -- `atoms.path(b"moov")`: KeyError → MP4MetadataError
+    | some R =>
+      if (path? atoms ilstPath).isSome then
+        -- __save_existing
+        if f.length < R.offset + R.length then (some .mutagen, f)     -- content_size < 0: error("… beyond the file")
+        else
+          let paddingSize : Int := (R.length : Int) - ((ilstData.length + 8 : Nat) : Int)
+          let newPadding := getPadding pad paddingSize (f.length - (R.offset + R.length))
+          saveAtZ mem f atoms R.parents R.offset R.length (ilstData ++ freeAtom newPadding)
+      else
+        -- __save_new
+        if f.length < R.offset then (some .value, f)          -- insert_bytes: movesize < 0 (whatever the padding callback said)
+        else
+          let metaData := zeros 4 ++ hdlrAtom ++ ilstData
+          let newPadding := getPadding pad (-(metaData.length : Int)) (f.length - R.offset)
+          let metaAtom := renderAtom nMeta (metaData ++ freeAtom newPadding)
+          let data :=
+            match R.parents.getLast? with
+            | some p => if p.name ≠ nUdta then renderAtom nUdta metaAtom else metaAtom
+            | none => metaAtom
+          saveAtZ mem f atoms R.parents R.offset 0 data
+
+/-- what `MP4.load` does with the atom tree: `Atoms(fileobj)` (AtomError → `error`), `MP4Info.load` needs a
+top-level `moov` ("not a MP4 file"), `MP4Tags._can_load`.  Answer: has the object tags (`tags is not None`).
+(Everything else `load` does — stream info, the `ilst` children, chapters — runs inside
+`except Exception: reraise(error …)` and is not modelled here: the real `load` fails on more files, never
+with another class.) -/
+def load (f : Bytes) : Except PyErr Bool :=
+  match parse f with
+  | .error e => .error e
+  | .ok atoms =>
+    match child? atoms nMoov with
+    | none => .error .mutagen
+    | some _ => .ok (path? atoms ilstPath).isSome
+
+/-- `m = MP4(fileobj); [m.add_tags();] m.save(fileobj, padding=…)`; `FileType.save` does nothing when
+`tags is None`; `add_tags()` raises `error` when there are tags already -/
+def openSave (mem : Bool) (f : Bytes) (addTags : Bool) (ilstData : Bytes) (pad : PadChoice) : Option PyErr × Bytes :=
+  match load f with
+  | .error e => (some e, f)
+  | .ok hasTags =>
+    if addTags ∧ hasTags then (some .mutagen, f)
+    else if addTags ∨ hasTags then saveTags mem f ilstData pad
+    else (none, f)
+
+/-- `MP4Tags.delete`: `self.clear(); self.save(filename, padding=lambda x: 0)` — an empty `ilst` -/
+def deleteTags (mem : Bool) (f : Bytes) : Option PyErr × Bytes :=
+  saveTags mem f (renderAtom nIlst []) (.callback fun _ _ => 0)
+
+/-- `MP4(fileobj).delete(fileobj)` and the module function `mutagen.mp4.delete(fileobj)` -/
+def openDelete (mem : Bool) (f : Bytes) : Option PyErr × Bytes :=
+  match load f with
+  | .error e => (some e, f)
+  | .ok hasTags => if hasTags then deleteTags mem f else (none, f)
 
 end Mutagen.Mp4C
